@@ -35,7 +35,7 @@ public:
 
   explicit ATANExpression(std::vector<Expression*>&& args) : BuiltinExpression(FUNC_ATAN, std::move(args)) { }
 
-  const Type& type(Context& ctx) const override { return Value::type_numeric; }
+  const Type& type(Context& ctx) const override;
 
   Value& value(Context& ctx) const override;
 
